@@ -569,13 +569,28 @@ theorem ratelimit_replay_and_tokens (s : RLState) (i : RLIn) :
     ((rlWire s i).1.tokens ≤ s.tokens ∧ s.tokens ≤ (rlWire s i).1.tokens + 1) ∧
     ((rlWire s i).2 = .badcookie → i.udp = true) ∧
     ((rlWire s i).2 = .drop → s.tokens = 0 ∧ (rlWire s i).1 = s) := by
-  obtain ⟨udp, ck, replay, exempt⟩ := i
+  obtain ⟨udp, ck, replay, exempt, ov⟩ := i
   refine ⟨fun h => by simp only at h; simp [rlWire, h], ?_⟩
   by_cases ht : s.tokens = 0
-  · cases replay <;> cases exempt <;> cases udp <;> rcases ck with _ | ⟨cid, h⟩ <;>
+  · cases replay <;> cases exempt <;> cases udp <;> cases ov <;> rcases ck with _ | ⟨cid, h⟩ <;>
       simp [rlWire, rlAllow, ht] <;> (try split) <;> (try simp_all)
-  · cases replay <;> cases exempt <;> cases udp <;> rcases ck with _ | ⟨cid, h⟩ <;>
+  · cases replay <;> cases exempt <;> cases udp <;> cases ov <;> rcases ck with _ | ⟨cid, h⟩ <;>
       simp [rlWire, rlAllow, ht] <;> (try split) <;> (try simp_all) <;> (try omega)
+
+/-- A query in an EDNS version the server does not speak takes no part in the
+cookie exchange on either branch: never BADCOOKIE, the remembered cookie is
+untouched, the token is paid — it is left to edns (BADVERS). -/
+theorem ratelimit_other_version (s : RLState) (i : RLIn) (hv : i.otherVersion = true) :
+    (rlWire s i).2 ≠ .badcookie ∧ (rlWire s i).1.cached = s.cached ∧ rlWire s i = rlMsg s i := by
+  obtain ⟨udp, ck, replay, exempt, ov⟩ := i
+  simp only at hv
+  subst hv
+  refine ⟨?_, ?_, rfl⟩ <;>
+  · cases replay <;> cases exempt <;> by_cases ht : s.tokens = 0 <;> simp [rlWire, rlAllow, ht]
+
+-- non-vacuity: a stale cookie over UDP in EDNS version 1 pays a token and goes on to edns
+example : rlWire { cached := some 1, tokens := 2 } { udp := true, ck := some (2, .none), otherVersion := true } =
+    ({ cached := some 1, tokens := 1 }, .next) := by decide
 
 -- non-vacuity: cookie A over UDP, rotate to B over TCP, then B + its server half over UDP passes
 example : (rlRun rlWire { tokens := 8 } [{ udp := true, ck := some (1, .none) }, { udp := false, ck := some (2, .none) },
